@@ -64,8 +64,11 @@ StepNext(ev, s, m) ==
       [] s.a = "Regen" ->
             IF s.o = "regenerated"
             THEN [m EXCEPT !.st = "fresh", !.js = s.js, !.ef = s.ef,
-                           !.made = IF m.st = "saved" /\ Class(ev.kind, ev.env, m.svmade, s.c) = "convert"
-                                    THEN [m.svmade EXCEPT !.thr = s.c.thr] ELSE m.svmade]
+                           !.made = IF m.st # "saved" THEN s.c
+                                    ELSE LET cls == Class(ev.kind, ev.env, m.svmade, s.c) IN
+                                         IF cls = "convert" THEN [m.svmade EXCEPT !.thr = s.c.thr]
+                                         ELSE IF cls = "stale" THEN s.c     \* reported above; from here on they pass for results of s.c
+                                         ELSE m.svmade]
             ELSE [m EXCEPT !.st = "absent"]
       [] OTHER -> m
 
